@@ -106,8 +106,30 @@ func Run(module, cfg string, o Opts) (*Result, error) {
 	var keep strings.Builder
 	sc := bufio.NewScanner(&out)
 	sc.Buffer(make([]byte, 1<<20), 1<<28)
+	pendingTag := ""
 	for sc.Scan() {
 		line := sc.Text()
+		// TLC wraps some long tuples:  << "TAG",\n   "payload" >>
+		if pendingTag != "" {
+			t := strings.TrimSpace(line)
+			if strings.HasPrefix(t, `"`) && strings.HasSuffix(t, `" >>`) {
+				s, err := strconv.Unquote(t[:len(t)-3])
+				if err != nil {
+					return nil, fmt.Errorf("cannot unquote wrapped TLC tuple payload: %v: %.200s", err, t)
+				}
+				res.Tagged[pendingTag] = append(res.Tagged[pendingTag], s)
+				pendingTag = ""
+				continue
+			}
+			pendingTag = ""
+		}
+		if strings.HasPrefix(line, `<< "`) && strings.HasSuffix(line, `",`) {
+			tag := line[4 : len(line)-2]
+			if want[tag] {
+				pendingTag = tag
+				continue
+			}
+		}
 		if strings.HasPrefix(line, `<<"`) {
 			// <<"TAG", "payload">>
 			rest := line[3:]
